@@ -42,7 +42,10 @@ c11_index!(c11_index_len4, 4);
 // combinations in one query); termination = unwinding assertion.
 macro_rules! c11_slice {
     ($name:ident, $len:expr, $unwind:expr) => {
-        proof!($name, $unwind, {
+        c11_slice!($name, $len, $unwind, proof);
+    };
+    ($name:ident, $len:expr, $unwind:expr, $pm:ident) => {
+        $pm!($name, $unwind, {
             let a = marker_array($len);
             let doc = Mini::Arr(a);
             let (s, e, st) = (any_opt_ijson(), any_opt_ijson(), any_opt_ijson());
@@ -71,6 +74,9 @@ c11_slice!(c11_slice_len1, 1, 3);
 c11_slice!(c11_slice_len2, 2, 4);
 c11_slice!(c11_slice_len3, 3, 5);
 c11_slice!(c11_slice_len4, 4, 6);
+// thorough tier: longer arrays under the K = 8 allocation regime
+c11_slice!(c11_slice_len5, 5, 7, proof_k8);
+c11_slice!(c11_slice_len6, 6, 8, proof_k8);
 
 // ---------------------------------------------------------------------------
 // C01 / C02: wildcard selector (RFC 9535 2.3.2): all children, document order,
